@@ -33,6 +33,8 @@ def long_sentences(ctx, focus, count):
         table = {(x, y): [CombinatorResult(cat=rng.choice(cats), op_string=f'r{str(x)}{str(y)}', op_symbol='<r>', head_is_left=hl)] for x in cats for y in cats}
         binary, unary = (lambda x, y: list(table.get((x, y), []))), (lambda x: [])
         s = glue.rand_sentence(rng, len(cats), n=n)
+        if isinstance(s.tokens[0], str):
+            s.tokens[0] = gen.rand_token(rng, 'en', full=False, plain=True)      # the token depccg.parsing._type_check inspects
         pen8 = rng.choice([0, 1])
         try:
             res, rec = glue.run([s], cats, cats, binary, unary, unary_penalty=pen8 / 8.0, beta=0.1, use_beta=False, pruning_size=50, nbest=1,
@@ -122,6 +124,10 @@ def one_batch(ctx0, focus, rng, b, bseed, cases, descr):
         theta_odd = rng.choice([15, 31, 63])
         max_length = rng.choice([250, 250, 3])
         max_step = rng.choice([10000000, 10000000, rng.randint(1, 30)])
+        if nbest > 1 and getattr(binary, 'wide', False):
+            # hundreds of results for one pair: n-best search keeps every derivation, so the budget is kept small (the chart of a five-token
+            # sentence would not fit into memory otherwise)
+            max_step = min(max_step, rng.randint(50, 3000))
         if nbest > 1 and getattr(unary, 'self_loops', False):
             # a unary cycle has infinitely many derivations: n-best search of a sentence with fewer than nbest parses runs to the
             # step budget, so the budget is kept small here (1-best search stores one item per category and cell, and terminates)
